@@ -65,6 +65,8 @@ SEEDS = {
     "empty": (),
     "healthy": ("w.supply[WETH,C]", "w.supply[USDC,C]", "w.borrow[DAI,third]"),
     "before-shock": ("w.supply[WETH,C]", "w.borrow[USDC,most]", "w.advance", "w.advance"),
+    # one debt against two collaterals: at the shock the bigger collateral is seized entirely, the debt is not covered, the other collateral remains
+    "two-collaterals-one-debt-before-shock": ("w.supply[WETH,C]", "w.supply[USDC,C]", "w.borrow[USDC,most]", "w.advance", "w.advance"),
     "two-collaterals-before-shock": ("w.supply[WETH,C]", "w.supply[USDC,C]", "w.borrow[DAI,third]", "w.borrow[USDC,most]", "w.advance", "w.advance"),
 }
 
@@ -182,6 +184,16 @@ def alphabet(world, max_writes):
                 out.append(Op(f"w.repay[{t.name},part]", write(lambda t=t: m.repay(t, m.get_borrow(t).amount / 3)), False, "repay"))
                 out.append(Op(f"w.repay[{t.name},None]", write(lambda t=t: m.repay(t)), True, "repay"))
                 out.append(Op(f"w.repay[{t.name},part,WETH]", write(lambda t=t: m.repay(t, m.get_borrow(t).amount / 4, True, W)), True, "repay"))
+
+                def repay_all_with_smallest(t=t):
+                    # the whole debt is to be paid out of the collateral position that is worth LEAST: if it is worth less than the debt the repayment is capped
+                    # and that position is used up
+                    row = ctx.price_row()
+                    colls = [k for k, sp in m._supplies.items() if sp.collateral]
+                    small = min(colls, key=lambda k: F(m.get_supply(k).amount) * F(row[k.name]))
+                    return m.repay(t, None, True, small)
+                if any(sp.collateral for sp in m._supplies.values()):
+                    out.append(Op(f"w.repay[{t.name},None,smallest-collateral]", write(repay_all_with_smallest), True, "repay"))
         if ctx.bar + 1 < len(ctx.index):
             def reprice():
                 # a what-if inside the bar: the status of the SAME timestamp is set again with another price vector (legal use of the API)
